@@ -201,6 +201,7 @@ func (p *Pool) Transpile(req WReq, timeout, confirmTimeout time.Duration) (WResp
 		to := timeout
 		if attempt == 1 {
 			to = confirmTimeout
+			WaitResponsive() // the confirming run must not start while the machine is stalled
 		}
 		resp, outcome := p.w.Do(req, to)
 		if outcome == "ok" {
